@@ -10,7 +10,7 @@ INFO = {
                   'every visit* that raises for an unsupported construct (discrete online, dense offline, dense online visitors, pastifiers)'],
     'bounds': {'quick': 'supported: every operator x monitor kind on 1-, 2- and 4-sample traces with symbolic values, with a declared-but-unused and a supplied-but-undeclared '
                         'variable and every order of the inputs; timed dense operators with windows over 3-4 sampling steps on 5-sample concrete grids; unsupported: operator x monitor-kind table (unbounded future online, prev/next/s_prev/s_next/rise/fall in dense time, '
-                        'bounded future and bounded until in the dense online monitor), bare and nested under another operator',
+                        'bounded future and bounded until in the dense online monitor; the same after pastify(), incl. until[0,0]), bare and nested under another operator',
                'thorough': 'longer traces, unsupported constructs nested at depth 2, bounds variety'},
     'outside': 'malformed data (wrong shapes, NaN, decreasing time-stamps); object-typed variables',
     'assumptions': ['"no later than the first evaluation": the RTAMTException must come from parse(), pastify() or the first evaluate()/update()'],
@@ -73,8 +73,9 @@ def h_rejected(f, kind):
                 w = dt.trace(env, vs, 2)
                 r = s.update(0, [(v, w[v][0]) for v in vs])
             else:
-                s = ct.make_spec({'ct-offline': 'offline', 'ct-online': 'online', 'ct-combined-off': 'combined', 'ct-combined-on': 'combined'}[kind],
-                                 'out = ' + text(f), vs)
+                s = ct.make_spec({'ct-offline': 'offline', 'ct-online': 'online', 'ct-combined-off': 'combined', 'ct-combined-on': 'combined',
+                                  'ct-online-pastified': 'online', 'ct-combined-pastified': 'combined'}[kind],
+                                 'out = ' + text(f), vs, pastify=kind.endswith('pastified'))
                 stage = 'evaluate'
                 sigs = {v: ct.signal(env, v, 2, 'zero') for v in vs}
                 args = [[v, [list(p) for p in sigs[v]]] for v in vs]
@@ -206,6 +207,15 @@ def obligations(tier, rng):
         for wfn in (wraps_ct if not quick else wraps_ct[:3]):
             f = wfn(g)
             for kind in ('ct-offline', 'ct-online', 'ct-combined-off', 'ct-combined-on'):
+                out.append(ob('C17', 'rejected', 'reject/%s/%s' % (kind, text(f)), f=f, kind=kind, validate=0))
+    # pastify() must not turn an unsupported construct into a supported one: discrete-only operators, unbounded future and bounded
+    # until stay rejected by the dense-time online monitor after pastify()
+    past_bad = [('next', X), ('s_next', X), ('prev', X), ('s_prev', X), ('rise', X), ('fall', X), ('until_t', X, Y, 0, 1), ('until_t', X, Y, 0, 0), ('until_t', X, Y, 1, 1),
+                ('unless_t', X, Y, 0, 0), ('until', X, Y), ('eventually', X), ('always', X), ('eventually_t', ('next', X), 0, 1), ('always_t', ('until_t', X, Y, 0, 0), 0, 1)]
+    for g in past_bad:
+        for wfn in wraps_ct[:3] + [lambda g: ('eventually_t', g, 0, 1)]:
+            f = wfn(g)
+            for kind in ('ct-online-pastified', 'ct-combined-pastified'):
                 out.append(ob('C17', 'rejected', 'reject/%s/%s' % (kind, text(f)), f=f, kind=kind, validate=0))
     dense_online_bad = [('until_t', X, Y, 0, 1), ('until_t', X, Y, 1, 2), ('until', X, Y), ('eventually', X), ('always', X),
                         ('eventually_t', X, 0, 1), ('always_t', X, 0, 1), ('unless_t', X, Y, 0, 1)]
